@@ -1182,9 +1182,28 @@ pub fn main(ctx: &Ctx) -> i32 {
     f.rule.push_str(" BLACK-BOX TIER (labels H_*): generated histories (3..15 ops) against a real single node: long-polls through POST /nacos/v1/cs/configs/listener (1..3 keys, held md5 current / stale / empty, 3- and 2-field items, default namespace spelled '' or 'public', Long-Pulling-Timeout 10 s) interleaved with publishes and removes over HTTP and gRPC; a long-poll that holds a stale md5 when registered, or whose key's content changes (acknowledged) while it is pending, must be answered within 2.5 s and the answer must name that key; every owed answer is judged before the next operation, so a poll without an answer is pending for sure; polls nothing happens to are abandoned (nobody waits 9.5 s); a long-poll that ends with a transport error is a discard.");
     let failh = match crate::c10h::start_node(&work, ctx.seed) {
         Ok((mut cluster, target)) => {
+            // saved replays of this tier first (regression)
+            let mut saved_fail = None;
+            for p in saved_replays(&ctx.id) {
+                if read_replay::<Case>(&p).is_ok() {
+                    continue;
+                }
+                if let Ok(hc) = read_replay::<crate::c10h::LCase>(&p) {
+                    let rep = crate::c10h::run_case(&hc, &target);
+                    stats.label("saved_replay_rerun");
+                    stats.record(&hc, &rep);
+                    if let Verdict::Violation(m) = &rep.verdict {
+                        saved_fail = Some(Failure { case: hc, message: format!("regression replay {}: {}", p.display(), m) });
+                        break;
+                    }
+                }
+            }
             let n_h = ctx.tier.pick(240u32, 4_000u32);
             let t2 = target.clone();
-            let r = run_cases(ctx, &stats, crate::c10h::case_strategy as fn() -> _, n_h, 16, 120, move |c| crate::c10h::run_case(c, &t2));
+            let r = match saved_fail {
+                Some(f) => Some(f),
+                None => run_cases(ctx, &stats, crate::c10h::case_strategy as fn() -> _, n_h, 16, 120, move |c| crate::c10h::run_case(c, &t2)),
+            };
             cluster.cleanup();
             r
         }
